@@ -7,6 +7,7 @@ import (
 	"go/types"
 	"math/big"
 	"os"
+	"path"
 	"sort"
 	"strconv"
 	"strings"
@@ -125,8 +126,10 @@ type Enc struct {
 	curLemma    string
 	curCallArgs []ssa.Value
 	assertDone  map[*AssertAt]bool
-	curBindings []Val // bindings of the closure whose contract is being applied
-	spawning    bool  // the contract is applied for a go statement
+	curInstr    ssa.Instruction   // instruction of the verified function being encoded (not of inlined callees)
+	lockHeap    map[string]string // heap right after the first Lock in the function body
+	curBindings []Val             // bindings of the closure whose contract is being applied
+	spawning    bool              // the contract is applied for a go statement
 	protected   map[*loopInfo][]*ssa.Range
 	lemmasUsed  map[string]bool
 	top         *frame
@@ -326,6 +329,24 @@ func (e *Enc) resolveCompSpec(m string, pkgPath string) []string {
 	pkg := e.P.tpkgs[pkgPath]
 	if g, ok := e.P.reg.Ghosts[m]; ok {
 		return []string{e.ghostComp(g).Name}
+	}
+	if strings.HasPrefix(m, "ghosts:") {
+		// "ghosts:<glob>": every declared ghost whose name matches, e.g. ghosts:*Src
+		var names, out []string
+		for n := range e.P.reg.Ghosts {
+			if ok, _ := path.Match(m[len("ghosts:"):], n); ok {
+				names = append(names, n)
+			}
+		}
+		sort.Strings(names)
+		for _, n := range names {
+			g := e.P.reg.Ghosts[n]
+			if e.P.tpkgs[g.Pkg] == nil && g.Pkg != "" {
+				continue // declared for a package that is not part of this program
+			}
+			out = append(out, e.ghostComp(g).Name)
+		}
+		return out
 	}
 	evalType := func(s string) types.Type {
 		t, err := e.evalType(s, pkg)
